@@ -519,6 +519,9 @@ func (g *Gen) execUserCall(c *ssa.CallCommon, in ssa.Instruction, recv *Val, arg
 		}
 		return res
 	}
+	if callee != nil && !c.IsInvoke() && g.canInline(callee) {
+		return g.inlineCall(callee, all, rt)
+	}
 	s := g.cur
 	mods := e.callMods(c)
 	for _, name := range sortedKeys(mods) {
